@@ -170,9 +170,36 @@ class Interp:
             raise RuntimeError("cannot start the extracted interpreter")
         self.sent = 0
 
-    def ask(self, line: str) -> str:
+    def _start(self):
+        import time
+        for attempt in range(20):
+            try:
+                self.p = subprocess.Popen([INTERP], stdin=subprocess.PIPE, stdout=subprocess.PIPE, text=True, bufsize=1)
+                return
+            except OSError:  # ETXTBSY while another check replaces the binary
+                time.sleep(0.5)
+        raise RuntimeError("cannot start the extracted interpreter")
+
+    def ask(self, line: str, timeout: float = None) -> str:
+        """one job, one answer line.  The reference semantics computes over exact rationals, which can explode (a
+        squaring loop doubles the size of a numerator in every iteration); a job that does not answer within
+        `timeout` seconds is abandoned: the interpreter is restarted (definitions are re-sent on the next use) and
+        the answer is 'error timeout', which every comparison treats as 'no information'."""
+        import select
+        timeout = timeout or float(os.environ.get("VERIF_INTERP_TIMEOUT_S", "60"))
         self.p.stdin.write(line + "\n")
         self.p.stdin.flush()
+        ready, _, _ = select.select([self.p.stdout], [], [], timeout)
+        if not ready:
+            self.timeouts = getattr(self, "timeouts", 0) + 1
+            try:
+                self.p.kill()
+                self.p.wait(timeout=5)
+            except Exception:
+                pass
+            self._start()
+            self.sent = 0
+            return "error timeout"
         out = self.p.stdout.readline()
         if not out:
             raise RuntimeError("interpreter died on: " + line[:300])
